@@ -6,7 +6,7 @@ import textwrap
 
 import z3
 
-from .values import (Sym, SInt, SReal, SBool, SStr, SData, SList, SObj, SExc, SOpaque, SSlice,
+from .values import (Sym, SInt, SReal, SBool, SStr, SData, SList, SObj, SExc, SOpaque, SSlice, Star,
                      Unsupported, intern, TInt, TReal, TBool, TStr, TData, TList, TObj, TOpaque, TNone)
 from .ctx import Ctx, PathEnd
 from . import ops
@@ -104,7 +104,7 @@ class Interp(ExprMixin):
             for kw in node.keywords:
                 self.ev(kw.value)
             return self.call(fn, [], {}, node)
-        args = self.ev_seq(node.args)
+        args = self.ev_seq(node.args, allow_star=True)
         kwargs = {}
         for kw in node.keywords:
             if kw.arg is None:
@@ -197,6 +197,15 @@ class Interp(ExprMixin):
         return SBool(z3.ForAll(vars_, body) if kind == "forall_obj" else z3.Exists(vars_, body))
 
     def call(self, fn, args, kwargs, node):
+        if any(isinstance(a, Star) for a in args):
+            # *symbolic-sequence: only an explicit model, or a class / function under contract (its *args parameter) takes it
+            try:
+                model = self.reg.external_objects.get(fn)
+            except TypeError:
+                model = None
+            q = qual_of(fn) if model is None and not isinstance(fn, (BoundMethod, Closure, SObj)) else None
+            if model is None and not (q is not None and q not in self.reg.externals and (q in self.reg.classes or q in self.reg.contracts)):
+                raise Unsupported(f"{self.frame.qualname}:{self.line(node)} starred symbolic sequence passed to {fn!r}")
         if isinstance(fn, BoundMethod):
             return self.call_method(fn.obj, fn.name, args, kwargs, node)
         if isinstance(fn, Closure):
@@ -362,7 +371,7 @@ class Interp(ExprMixin):
             q = obj.cls + "." + name
             if q in self.reg.externals:
                 return self.reg.externals[q](self, [obj] + list(args), kwargs, node)
-            return self.call_function(q, obj, args, kwargs, node)
+            return self.call_function(self.pick_variant(q, args), obj, args, kwargs, node)
         if isinstance(obj, SData):
             dt = obj.ty.dt
             # dynamic dispatch on a datatype value with a uniform contract (each constructor's real method is verified against it)
@@ -387,6 +396,19 @@ class Interp(ExprMixin):
         if h is not None:
             return h(self, name, args, kwargs, node)
         raise Unsupported(f"{self.frame.qualname}:{self.line(node)} method {name} on {obj!r}")
+
+    def pick_variant(self, q, args):
+        """A method with several contracts (q and q#tag, one per operand class): at a call site the variant whose declared parameter
+        classes are the classes of the object arguments is the callee's contract; otherwise the base contract."""
+        objs = [a.cls if isinstance(a, SObj) else None for a in args]
+        if not any(objs):
+            return q
+        for vq, c in self.reg.contracts.items():
+            if vq.startswith(q + "#") and getattr(c, "of", None) == q:
+                tys = list((c.params or {}).values())[:len(args)]
+                if len(tys) == len(args) and any(objs) and all((o is None and t not in self.reg.classes) or o == t for o, t in zip(objs, tys)):
+                    return vq
+        return q
 
     def list_method(self, lst, name, args, node):
         if isinstance(lst, list):
@@ -524,10 +546,13 @@ class Interp(ExprMixin):
         env = {}
         if a.vararg is None and len(args) > len(names):
             self.raise_py(TypeError, node)
+        if any(isinstance(v, Star) for v in args[:len(names)]) or (a.vararg is None and any(isinstance(v, Star) for v in args)):
+            raise Unsupported(f"{self.frame.qualname}:{self.line(node)} starred symbolic sequence bound to named parameters")
         for n, v in zip(names, args):
             env[n] = v
         if a.vararg is not None:
-            env[a.vararg.arg] = tuple(args[len(names):])
+            extra = args[len(names):]
+            env[a.vararg.arg] = self.concat_star(extra, node) if any(isinstance(v, Star) for v in extra) else tuple(extra)
         kw = dict(kwargs)
         for i, n in enumerate(names):
             if n in env:
@@ -555,6 +580,29 @@ class Interp(ExprMixin):
             self.raise_py(TypeError, node)
         return env
 
+    def concat_star(self, parts, node):
+        """the *args tuple of f(a, *L1, b, *L2): one list of symbolic length (elements in call order)"""
+        lists = [p.seq for p in parts if isinstance(p, Star)]
+        if not all(isinstance(l, SList) for l in lists):
+            raise Unsupported(f"{self.frame.qualname}:{self.line(node)} starred opaque sequence bound to *args")
+        ety = lists[0].elem
+        if len(parts) == 1:       # f(*L): the tuple holds exactly L's elements (a new sequence object over the same contents)
+            return SList(lists[0].len, lists[0].arr, ety)
+        k = z3.Int("cat_k")
+        total = z3.IntVal(0)
+        body = None
+        segs = []
+        for p in parts:
+            if isinstance(p, Star):
+                segs.append((total, p.seq.len, p.seq.arr[k - total]))
+                total = z3.simplify(total + p.seq.len)
+            else:
+                segs.append((total, z3.IntVal(1), ety.unwrap(p, self.ctx)))
+                total = z3.simplify(total + 1)
+        for start, ln, term in reversed(segs):
+            body = term if body is None else z3.If(k < start + ln, term, body)
+        return SList(total, z3.Lambda([k], body), ety)
+
     def const_default(self, d):
         try:
             v = ast.literal_eval(d)
@@ -567,7 +615,7 @@ class Interp(ExprMixin):
 
     def call_function(self, q, slf, args, kwargs, node):
         c = self.reg.contracts.get(q)
-        fnode, modname, cls, path, h = self.src.find(q)
+        fnode, modname, cls, path, h = self.src.find(c.of if c is not None and getattr(c, "of", None) else q)
         is_method = cls is not None and not any(
             isinstance(d, ast.Name) and d.id in ("staticmethod",) for d in fnode.decorator_list)
         if any(isinstance(d, ast.Name) and d.id == "classmethod" for d in fnode.decorator_list):
